@@ -198,7 +198,8 @@ def main(chk, replay_file):
     known = hv.known_findings(PID)
     J = hv.Job
     jobs = [
-        J("numNibbles.contract", unit, "h_numNibbles", enforce="numNibbles", loop_contracts=True, functions=["numNibbles"], role="aux"),
+        J("numNibbles.contract", unit, "h_numNibbles", enforce="numNibbles", loop_contracts=asmx.NUMNIBBLES_LOOP_CONTRACT, unwind=None if asmx.NUMNIBBLES_LOOP_CONTRACT else 9,
+          functions=["numNibbles"], role="aux", note="" if asmx.NUMNIBBLES_LOOP_CONTRACT else "counting loop has no recognised shape: unwound 9 times with unwinding assertions (complete: the loop is bounded by the operand width)"),
         J("getSize.contract", unit, "h_getSize", enforce="InstrImm_getSize", replace=["numNibbles"], functions=["InstrImm::getSize"], role="aux"),
         J("emit_instr.contract", unit, "h_emit_instr", enforce="emit_instr", unwind=9, functions=["emitProgramBin instruction arm"], role="aux"),
         J("roundtrip.lemma", unit, "h_roundtrip", unwind=9, functions=["numNibbles", "InstrImm::getSize", "emit_instr", "tokenToInstr"],
@@ -211,7 +212,7 @@ def main(chk, replay_file):
     if tier == "thorough":
         jobs += [
             J("roundtrip.lemma@cvc5", unit, "h_roundtrip", unwind=9, solver=["--cvc5"], timeout=1500, note="second back end"),
-            J("numNibbles.contract@cvc5", unit, "h_numNibbles", enforce="numNibbles", loop_contracts=True, solver=["--cvc5"], timeout=1500, role="aux", note="second back end"),
+            J("numNibbles.contract@cvc5", unit, "h_numNibbles", enforce="numNibbles", loop_contracts=asmx.NUMNIBBLES_LOOP_CONTRACT, unwind=None if asmx.NUMNIBBLES_LOOP_CONTRACT else 9, solver=["--cvc5"], timeout=1500, role="aux", note="second back end"),
         ]
     chk.jobs = jobs
     hv.run_jobs(jobs, chk.out)
